@@ -334,7 +334,7 @@ PROPS["C12"] = dict(
     level_note="Trusted: Lean kernel; Model.Search poll placement tied by exact agreement on halted/not-halted for every k tried. PV equality of the follow-up search is not claimed (table hits may cut the PV at different places); its score is.",
     technique="Lean 4 proof (liveness flag in the node contract; stores guarded by polls) + fault enumeration over cancellation polls",
     rule="positions x depth 1-3 x cancel point k over the polls of the undisturbed search; sequence halt -> search (optionally search -> halt -> search); drawn roots; non-trivial = distinct script",
-    partial=["follow-up search: same score and a principal (best) line, proved (C12More.followup_pv_principal*); the SAME line is not guaranteed and not claimed - followup_pv_may_differ / followup_first_move_may_differ are kernel-checked counterexamples (an exact table hit carries no continuation; a stored root move breaks ties) - it is the same line when the halted search left the table unchanged (followup_identical_of_table_unchanged)", "board hand-back after a halt: stream only", "Minimax: minimax_halt_invalid, minimax_halted_at (the run makes exactly mmNodes + 1 polls: every cancellation point characterised), minimax_no_cancel_eq_V (value = reference V, principal line), minimax_eq_alphabeta - proved for the transcription Model.minimax / Model.Minimax.minimaxSearch, which the c03 stream compares with the Go Minimax only through its results (second-opinion op), not poll by poll"],
+    partial=["follow-up search: same score and a principal (best) line, proved (C12More.followup_pv_principal*); the SAME line is not guaranteed and not claimed - followup_pv_may_differ / followup_first_move_may_differ are kernel-checked counterexamples (an exact table hit carries no continuation; a stored root move breaks ties) - it is the same line when the halted search left the table unchanged (followup_identical_of_table_unchanged)", "board hand-back after a halt: stream only", "Minimax: minimax_halt_invalid, minimax_halted_at (the run makes exactly mmNodes + 1 polls: every cancellation point characterised), minimax_no_cancel_eq_V (value = reference V, principal line), minimax_eq_alphabeta - proved for the transcription Model.minimax / Model.Minimax.minimaxSearch, which the c12 stream compares with the Go Minimax exactly (cfg minimax: nodes, score, PV, and the halted / finished verdict at the first, middle, last and one-past-the-last poll)"],
     modelled=SEARCH_MODELLED,
 )
 
